@@ -80,7 +80,7 @@ def jobs(tier):
     A(lambda: L.SpiMasterInst(2, False, spi_alphabet(2, 2, lengths=(0, 1, 2, 3), words=(1,) if quick else (1, 2),
                                                      cs=((0, 0), (1, 0), (1, 1)), lbs=(0, 1)),
                               tag="/div2/cs,loopback,length 0..3"), heavy=True, max_states=800 if quick else 3000000)
-    A(lambda: L.SpiSlaveInst(2, L.prod((0, 1), (0, 1), (0, 1), (1, 2), (0,))), heavy=True, max_states=2000 if quick else 25000)
+    A(lambda: L.SpiSlaveInst(2, L.prod((0, 1), (0, 1), (0, 1), (1, 2), (0,))), heavy=True, max_states=4000 if quick else 60000)
     # ---- (5) I2C machine: all command letters (incl. compound and overlapping ones), data pokes
     A(lambda: L.I2cInst(2, 1, i2c_alphabet(1, sdas=(1,)), tag="/all commands"), heavy=True, max_states=30000 if quick else 3000000)
     A(lambda: L.I2cInst(2, 0, i2c_alphabet(0, cmds=[(0, 0, 0, 0), (0, 0, 1, 0), (0, 0, 0, 1), (0, 1, 0, 0), (1, 0, 0, 0)],
